@@ -84,7 +84,9 @@ Inductive event :=
 | ETerminateJob (p : Z) (sig : option Z)
 | EGrow (n : Z) | EShrink (n : Z)
 | EClose
-| ENext (j : Z).
+| ENext (j : Z)
+| ETickClose (k : nat).      (* a supervision pass during which close() is called from the start-up hook
+                                of the (k+1)-th worker it starts *)
 
 (* what the call returned / raised, as the harness canonicalises it *)
 Inductive ret :=
@@ -518,6 +520,24 @@ Definition do_tick (s : pool) : pool * ret :=
   | _ => (s, r)
   end.
 
+(* close() *)
+Definition do_close (s : pool) : pool :=
+  if pstate s =? 0 then with_sem (with_pstate s 1) (LaxSem.clear (sem s)) else s.
+
+(* a supervision pass with close() arriving in the middle of _repopulate_pool (it is called from
+   on_process_up of the (k+1)-th replacement): the loop tests the pool state before every
+   replacement, so no further worker is started; the pass then goes on (slots of the reaped) *)
+Definition do_tick_close (s : pool) (k : nat) : pool * ret :=
+  let (s0, codes) := join_exited s in
+  let missing := Z.to_nat (nprocs s0 - Z.of_nat (length (wlist s0))) in
+  if (missing <=? k)%nat then do_tick s          (* the hook never fires *)
+  else
+    let (s1, r) := repopulate (S k) 0 codes s0 in
+    match r with
+    | RNone => (release_n (do_close s1) (length codes), RNone)
+    | _ => (s1, r)
+    end.
+
 (* --------------------------------------------------------------- timeout scan *)
 Definition timed_out (s : pool) (start timeout : option Z) : bool :=
   match start, timeout with
@@ -703,10 +723,9 @@ Definition step (s : pool) (e : event) : pool * ret :=
   | EGrow n => (with_sem (with_nprocs s (nprocs s + n))
                          (Nat.iter (Z.to_nat n) LaxSem.grow (sem s)), RNone)
   | EShrink n => do_shrink s n
-  | EClose => if pstate s =? 0
-              then (with_sem (with_pstate s 1) (LaxSem.clear (sem s)), RNone)
-              else (s, RNone)
+  | EClose => (do_close s, RNone)
   | ENext j => do_next s j
+  | ETickClose k => do_tick_close s k
   end.
 
 (* configuration of a pool: Pool.__init__ *)
